@@ -62,7 +62,7 @@ func init() {
 						construct := ord.next("call " + f.Name())
 						if fc.Dominates(*storeLoc, Loc{b, i}) {
 							obs = append(obs, mkOb(c, "LOC.eval-sets", u, construct, ce, Proved, "dominated by `env.loc = v.source`", true))
-						} else if ce.Pos() < fc.Node(*storeLoc).Pos() {
+						} else if fc.Dominates(Loc{b, i}, *storeLoc) {
 							obs = append(obs, mkOb(c, "LOC.eval-sets", u, construct, ce, Proved, "precedes the dispatch on the form (entry checks)", false))
 						} else {
 							obs = append(obs, mkOb(c, "LOC.eval-sets", u, construct, ce, Violated, "an error for this form can be raised although env.loc was not set to its location on this path: it is blamed on the previously evaluated form", true))
@@ -257,41 +257,37 @@ func init() {
 			if len(rec) == 0 {
 				return []Obligation{mkOb(c, "STAMP.walk-complete", u, "recursion", fd, Violated, "stampGuarded no longer visits children", true)}
 			}
-			// edges implying the node already has a position: v.source != nil (positive) together with Pos >= 0;
-			// we take the false edge of the stamping condition `v.source == nil || v.source.Pos < 0`
-			var hasPosEdges []cfgEdge
-			for _, b := range fc.G.Blocks {
-				cond := fc.CondOf(b)
-				if cond == nil || !fc.Live(b) {
-					continue
+			// A path on which the node already has a position must still reach the recursion: cut every edge whose
+			// logical content entails "no position" (source == nil or Pos < 0) and require reachability from entry.
+			posFld := c.LookupField("parser/token.Location.Pos")
+			cls := func(e ast.Expr) (string, bool) {
+				be, ok := ast.Unparen(e).(*ast.BinaryExpr)
+				if !ok {
+					return "", false
 				}
-				mentions := false
-				ast.Inspect(cond, func(n ast.Node) bool {
-					if se, ok := n.(*ast.SelectorExpr); ok && FieldOfSelector(info, se) == src {
-						mentions = true
-					}
-					return true
-				})
-				if !mentions {
-					continue
+				if (be.Op == token.EQL || be.Op == token.NEQ) && FieldOfSelector(info, be.X) == src && isNilIdent(info, be.Y) {
+					return "srcNil", be.Op == token.NEQ
 				}
-				if be, ok := ast.Unparen(cond).(*ast.BinaryExpr); ok && be.Op == token.LOR {
-					hasPosEdges = append(hasPosEdges, cfgEdge{b, 1})
-				}
-			}
-			if len(hasPosEdges) == 0 {
-				return []Obligation{mkOb(c, "STAMP.walk-complete", u, "recursion", fd, Undecided, "stamping condition `source == nil || Pos < 0` not found", false)}
-			}
-			ok := true
-			for _, e := range hasPosEdges {
-				reach := false
-				for _, r := range rec {
-					if fc.reachableFromAvoiding(e.B.Succs[e.K], r.Loc.B, nil) {
-						reach = true
+				if posFld != nil && FieldOfSelector(info, be.X) == posFld {
+					if k, okc := intConst(info, be.Y); okc && k == 0 {
+						switch be.Op {
+						case token.LSS:
+							return "posNeg", false
+						case token.GEQ:
+							return "posNeg", true
+						}
 					}
 				}
-				if !reach {
-					ok = false
+				return "", false
+			}
+			noPos := fc.edgesEntailing(cls, func(v map[string]bool) bool { return v["srcNil"] || v["posNeg"] })
+			if len(noPos) == 0 {
+				return []Obligation{mkOb(c, "STAMP.walk-complete", u, "recursion", fd, Undecided, "no test of the node's position found", false)}
+			}
+			ok := false
+			for _, r := range rec {
+				if fc.reachableAvoiding(r.Loc.B, noPos) {
+					ok = true
 				}
 			}
 			if ok {
